@@ -1105,6 +1105,9 @@ func genRequests(r *gen.Rand, p *program, nreq int) [][2]string {
 		case 2:
 			path = "/" + r.StringFrom("abc/x", r.Range(0, 5))
 		}
+		if path == "" {
+			path = "/" // an empty request target is not a request
+		}
 		if p.Cfg.Unescape && !isASCII(path) && r.Bool() {
 			path = pctEncodeNonASCII(path)
 		}
